@@ -18,7 +18,31 @@ TraceInit == /\ tid \in 1..Len(Traces)
              /\ CumInit(Traces[tid].op)
              /\ i = 0
 
-TraceRow == /\ T.out = "ok" /\ i < N /\ Len(T.res) = N /\ (IF "hi" \in DOMAIN T THEN Len(T.hi) = N ELSE TRUE)
+(* long mode (groups of tens of thousands of rows: beyond 8-, 16-bit running counters): stepping the machine keeps the    *)
+(* whole output and history in every state (quadratic), so the prefix definition is evaluated in closed form on a          *)
+(* periodic input the trace must follow exactly: key = Null every 90th row, group 2 every 50th, group 1 otherwise;        *)
+(* values 1 (cumsum: the running sum is the running count), or a 2 (cummax) / 1 (cummin) every 7th row.                  *)
+IsLong == "long" \in DOMAIN T
+KeyPat(r) == IF r % 90 = 0 THEN Null ELSE IF r % 50 = 0 THEN 2 ELSE 1
+CntUpTo(g, m) == IF g = 2 THEN (m \div 50) - (m \div 450) ELSE m - (m \div 90) - ((m \div 50) - (m \div 450))
+ValPat(r) == CASE T.op = "cummax" -> (IF r % 7 = 0 THEN 2 ELSE 1)
+               [] T.op = "cummin" -> (IF r % 7 = 0 THEN 1 ELSE 2)
+               [] OTHER -> 1
+Thr(g) == IF g = 2 THEN 350 ELSE 7          \* first row of the group that is a multiple of 7
+LongCumDef(r) == LET g == KeyPat(r) IN
+  CASE T.op = "cumcount" -> CntUpTo(g, r) - 1
+    [] T.op = "cumsum"   -> CntUpTo(g, r)
+    [] T.op = "cummax"   -> (IF r >= Thr(g) THEN 2 ELSE 1)
+    [] T.op = "cummin"   -> (IF r >= Thr(g) THEN 1 ELSE 2)
+LongOk == /\ T.out = "ok" /\ Len(T.res) = N /\ Len(T.vals) = N /\ T.op \in {"cumcount", "cumsum", "cummax", "cummin"}
+          /\ {r \in 1..N : ~(/\ T.keys[r] = KeyPat(r) /\ T.sel[r] = 1 /\ T.vals[r] = ValPat(r)
+                             /\ (T.keys[r] = Null \/ T.res[r] = LongCumDef(r)))} = {}
+TraceLong == /\ IsLong /\ i = 0 /\ LongOk
+             /\ i' = N + 1
+             /\ PrintT(<<"ACCEPT", tid>>)
+             /\ UNCHANGED <<uvars, tid>>
+
+TraceRow == /\ ~IsLong /\ T.out = "ok" /\ i < N /\ Len(T.res) = N /\ (IF "hi" \in DOMAIN T THEN Len(T.hi) = N ELSE TRUE)
             /\ RowCum(T.keys[i + 1], T.vals[i + 1], T.sel[i + 1] = 1)
             /\ i' = i + 1
             /\ (Diag \/ LET r == i + 1 IN
@@ -28,12 +52,12 @@ TraceRow == /\ T.out = "ok" /\ i < N /\ Len(T.res) = N /\ (IF "hi" \in DOMAIN T 
                                    THEN T.hi[r] = run'[T.keys[r]].c ELSE TRUE))
             /\ UNCHANGED tid
 
-TraceDone == /\ T.out = "ok" /\ i = N /\ Len(T.res) = N
+TraceDone == /\ ~IsLong /\ T.out = "ok" /\ i = N /\ Len(T.res) = N
              /\ i' = N + 1
              /\ IF Diag THEN PrintT(<<"EXPECT", tid, out>>) ELSE PrintT(<<"ACCEPT", tid>>)
              /\ UNCHANGED <<uvars, tid>>
 
-TraceNext == TraceRow \/ TraceDone
+TraceNext == TraceRow \/ TraceDone \/ TraceLong
 TraceSpec == TraceInit /\ [][TraceNext]_tvars
 TraceInv == PrefixIsDef
 =============================================================================
